@@ -21,6 +21,11 @@ pub struct Case {
     /// 4 every n+1 inputs; 5 once after n-1 inputs (during warm-up) and again every 7n+3
     #[serde(default)]
     pub resets: u8,
+    /// price unit: every price of the stream is multiplied by 10^unit_exp (0 = as generated). A serialized form
+    /// whose length follows the magnitude of the numbers (text, variable-length integers, trimmed mantissas) is
+    /// constant on ordinary prices and not at 1e300 or 1e-300
+    #[serde(default)]
+    pub unit_exp: i32,
 }
 
 fn reset_due(mode: u8, i: usize, n: usize) -> bool {
@@ -65,6 +70,20 @@ fn pattern(p: usize, i: usize, u: f64) -> f64 {
 }
 
 fn gen_inputs(c: &Case) -> Vec<RawBar> {
+    let mut v = gen_inputs_unit1(c);
+    if c.unit_exp != 0 {
+        let f = 10f64.powi(c.unit_exp);
+        for b in v.iter_mut() {
+            b.o *= f;
+            b.h *= f;
+            b.l *= f;
+            b.c *= f;
+        }
+    }
+    v
+}
+
+fn gen_inputs_unit1(c: &Case) -> Vec<RawBar> {
     let mut st = c.seed;
     let mut out = Vec::with_capacity(c.len);
     if c.shape >= SHAPES.len() {
@@ -213,6 +232,7 @@ pub fn check(c: &Case, ctx: &mut Ctx) -> Result<(), Failure> {
         fp.u(c.seed);
         fp.u(scalar as u64);
         fp.u(c.resets as u64);
+        fp.u(c.unit_exp as u32 as u64);
         if c.resets > 0 {
             ctx.label("with_resets");
         }
@@ -228,18 +248,18 @@ pub fn check(c: &Case, ctx: &mut Ctx) -> Result<(), Failure> {
 const PERIODS: [usize; 8] = [1, 2, 3, 5, 14, 64, 200, 512];
 
 fn strategy(maxlen: usize) -> BoxedStrategy<Case> {
-    (any_kind().prop_flat_map(|k| cfg_for(k, 512, multiplier_any())), prop_oneof![2 => Just(0usize), 2 => Just(1usize), 1 => Just(2usize), 1 => Just(3usize), 1 => Just(4usize), 1 => Just(5usize), 1 => Just(6usize), 1 => Just(7usize), 1 => Just(8usize), 1 => Just(9usize), 1 => Just(10usize), 1 => Just(11usize), 6 => 12usize..N_SHAPES], (maxlen / 10)..=maxlen, any::<u64>(), any::<bool>(), prop_oneof![3 => Just(0u8), 1 => 1u8..6])
-        .prop_map(|(cfg, shape, len, seed, scalar, resets)| {
+    (any_kind().prop_flat_map(|k| cfg_for(k, 512, multiplier_any())), prop_oneof![2 => Just(0usize), 2 => Just(1usize), 1 => Just(2usize), 1 => Just(3usize), 1 => Just(4usize), 1 => Just(5usize), 1 => Just(6usize), 1 => Just(7usize), 1 => Just(8usize), 1 => Just(9usize), 1 => Just(10usize), 1 => Just(11usize), 6 => 12usize..N_SHAPES], (maxlen / 10)..=maxlen, any::<u64>(), any::<bool>(), prop_oneof![3 => Just(0u8), 1 => 1u8..6], prop_oneof![6 => Just(0i32), 1 => Just(290), 1 => Just(-300), 1 => -60i32..60])
+        .prop_map(|(cfg, shape, len, seed, scalar, resets, unit_exp)| {
             let n = cfg.p.iter().copied().max().unwrap_or(1);
             let heavy = matches!(cfg.kind, Kind::Mad | Kind::Cci | Kind::Er) && n > 32;
             let len = if heavy { (len / (n / 16)).max(20 * n) } else { len.max(20 * n) };
-            Case { cfg, shape, len, seed, scalar, resets }
+            Case { cfg, shape, len, seed, scalar, resets, unit_exp: if shape == 11 { unit_exp.min(280) } else { unit_exp } }
         })
         .boxed()
 }
 
 pub fn run(g: &mut Global) {
-    g.rule = "grid: all 22 indicators x periods {1,2,3,5,14,64,200,512} x 12 single-series stream shapes (zero-volume moving quotes, an enormous tick every `period` inputs, monotone up, monotone down, alternating, flat, random, rising and falling staircases with exact ties, repeated touches of an exact floor / ceiling, tick-grid walk) x scalar/bar path, streams of 1e5 (quick) / 1e6 (thorough) inputs; two_series_bars: the 9 indicators that read more than one bar field x the 8 periods x 25 shapes in which highs and lows follow patterns of their own (rising / falling / flat / alternating / random each: contracting inside-bar ranges, expanding ranges, a rising ceiling over a flat floor, ...); with_resets: periods {1,9,20,60} x five reset schedules (every 50 / 390 / n+1 inputs, once after the window filled, during warm-up and every 7n+3) x 3 shapes; random: proptest (kind, periods from the mixture to 512, shape, length, seed). Oracle: (i) bincode::serialized_size <= 256 + 64*(sum of periods) at every one of the first 4n+50 inputs and at geometrically spaced checkpoints afterwards; (ii) counting #[global_allocator] with per-thread live-byte counters: after a warm-up of 2n+10 inputs, the net growth (and the sampled peak) of live heap bytes while feeding the rest stays <= the same bound; the number of allocation calls during that phase is reported. Non-trivial = stream at least 20 periods long; sub-class monotone shapes (worst case for a retained history / monotonic deque); distinct by (kind, parameters, shape, length, seed, path).".into();
+    g.rule = "grid: all 22 indicators x periods {1,2,3,5,14,64,200,512} x 12 single-series stream shapes (zero-volume moving quotes, an enormous tick every `period` inputs, monotone up, monotone down, alternating, flat, random, rising and falling staircases with exact ties, repeated touches of an exact floor / ceiling, tick-grid walk) x scalar/bar path, streams of 1e5 (quick) / 1e6 (thorough) inputs; extreme_units: all 22 indicators x periods {1,14,64} x {random, monotone, flat} with every price multiplied by 1e300, 1e-300, 1e57, 1e-45, 1e150, 1e-310; two_series_bars: the 9 indicators that read more than one bar field x the 8 periods x 25 shapes in which highs and lows follow patterns of their own (rising / falling / flat / alternating / random each: contracting inside-bar ranges, expanding ranges, a rising ceiling over a flat floor, ...); with_resets: periods {1,9,20,60} x five reset schedules (every 50 / 390 / n+1 inputs, once after the window filled, during warm-up and every 7n+3) x 3 shapes; random: proptest (kind, periods from the mixture to 512, shape, length, seed). Oracle: (i) bincode::serialized_size <= 256 + 64*(sum of periods) at every one of the first 4n+50 inputs and at geometrically spaced checkpoints afterwards; (ii) counting #[global_allocator] with per-thread live-byte counters: after a warm-up of 2n+10 inputs, the net growth (and the sampled peak) of live heap bytes while feeding the rest stays <= the same bound; the number of allocation calls during that phase is reported. Non-trivial = stream at least 20 periods long; sub-class monotone shapes (worst case for a retained history / monotonic deque); distinct by (kind, parameters, shape, length, seed, path).".into();
     g.assumptions = vec![
         "inputs are pre-generated before the measured phase; the feeding loop itself allocates nothing".into(),
         "heap is measured on the thread that feeds the indicator; ta spawns no threads".into(),
@@ -260,7 +280,7 @@ pub fn run(g: &mut Global) {
             let heavy = matches!(kind, Kind::Mad | Kind::Cci | Kind::Er) && n > 32;
             let l = if heavy { (len / (n / 16)).max(20 * n) } else { len.max(20 * n) };
             let mut s = seed ^ i.wrapping_mul(0x2545F4914F6CDD1D);
-            Case { cfg: cfg_small(kind, n), shape, len: l, seed: splitmix(&mut s), scalar, resets: 0 }
+            Case { cfg: cfg_small(kind, n), shape, len: l, seed: splitmix(&mut s), scalar, resets: 0, unit_exp: 0 }
         },
         &check,
     );
@@ -277,7 +297,25 @@ pub fn run(g: &mut Global) {
             let heavy = matches!(kind, Kind::Cci) && n > 32;
             let l = if heavy { (len / (n / 16)).max(20 * n) } else { len.max(20 * n) };
             let mut s = seed ^ (i + 991).wrapping_mul(0x2545F4914F6CDD1D);
-            Case { cfg: cfg_small(kind, n), shape, len: l, seed: splitmix(&mut s), scalar: false, resets: 0 }
+            Case { cfg: cfg_small(kind, n), shape, len: l, seed: splitmix(&mut s), scalar: false, resets: 0, unit_exp: 0 }
+        },
+        &check,
+    );
+    // the same streams in extreme price units (see Case::unit_exp)
+    let ulen = g.tier.pick(20_000usize, 200_000usize);
+    g.exhaustive(
+        "extreme_units",
+        22 * 3 * 3 * 6,
+        &move |i| {
+            let unit_exp = [300i32, -300, 57, -45, 150, -310][(i % 6) as usize];
+            let r = i / 6;
+            let shape = [4usize, 0, 3][(r % 3) as usize];
+            let r = r / 3;
+            let n = [1usize, 14, 64][(r % 3) as usize];
+            let kind = ALL_KINDS[(r / 3) as usize];
+            let heavy = matches!(kind, Kind::Mad | Kind::Cci | Kind::Er) && n > 32;
+            let mut s = seed ^ (i + 4242).wrapping_mul(0x2545F4914F6CDD1D);
+            Case { cfg: cfg_small(kind, n), shape, len: if heavy { ulen / 2 } else { ulen }, seed: splitmix(&mut s), scalar: i % 2 == 1, resets: 0, unit_exp }
         },
         &check,
     );
@@ -296,7 +334,7 @@ pub fn run(g: &mut Global) {
             let kind = ALL_KINDS[(r / 4) as usize];
             let heavy = matches!(kind, Kind::Mad | Kind::Cci | Kind::Er) && n > 32;
             let mut s = seed ^ (i + 13).wrapping_mul(0x2545F4914F6CDD1D);
-            Case { cfg: cfg_small(kind, n), shape, len: if heavy { rlen / 2 } else { rlen }, seed: splitmix(&mut s), scalar: i % 2 == 0, resets }
+            Case { cfg: cfg_small(kind, n), shape, len: if heavy { rlen / 2 } else { rlen }, seed: splitmix(&mut s), scalar: i % 2 == 0, resets, unit_exp: 0 }
         },
         &check,
     );
